@@ -294,6 +294,13 @@ static void check_env(const wchar_t *parent, int behavior, const char *const *ex
     n += (size_t) u;
   }
   want[n++] = 0;
+  /* an empty extra entry reads as the end of the block: what CreateProcessW is handed then ends there, so only the prefix up to it is compared (the
+   * bounds of the whole construction are the sanitizer's business) */
+  for (int i = 0; extra && extra[i]; i++)
+    if (!extra[i][0]) {
+      if (rec_env_len > n || memcmp(want, rec_env, (rec_env_len ? rec_env_len - 1 : 0) * sizeof(wchar_t)) != 0) violation("env-block", argv, "environment block with an empty entry: the part before it differs");
+      return;
+    }
   if (n != rec_env_len || memcmp(want, rec_env, n * sizeof(wchar_t)) != 0) {
     char m[160];
     snprintf(m, sizeof m, "environment block differs: %zu units, expected %zu", rec_env_len, n);
@@ -311,8 +318,8 @@ static void env_cases(void)
   memset(longv, 'v', 305);
   memcpy(longv, "LONG=", 5);
   longv[305] = 0;
-  const char *entries[7] = { "A=1", "B=", "=C", longv, "\xc3\x9c=\xc3\x9f", "NOEQUALS", "X=a=b" }; /* an entry without '=' is passed on as it is */
-#define NENT 7
+  const char *entries[8] = { "A=1", "B=", "=C", longv, "\xc3\x9c=\xc3\x9f", "NOEQUALS", "X=a=b", "" }; /* an entry without '=' is passed on as it is; so is an empty one (whatever a reader makes of it, it is counted and copied like any other) */
+#define NENT 8
   for (int pi = 0; pi < 3; pi++)
     for (int beh = 0; beh < 2; beh++) {
       check_env(parents[pi], beh, NULL, 1);
